@@ -251,921 +251,921 @@ macro_rules! enc {
 }
 
 // GENERATED BY gen.py — BEGIN
-//@ props=C01,C05,C20 tier=thorough unwind=11
+//@ props=C01,C05,C20 tier=thorough unwind=11 witness=completed
 dec!(dec_0_0, 0, 0);
 //@ props=C02 tier=thorough unwind=11
 decm!(decm_0_0, 0, 0);
-//@ props=C01,C05,C20 tier=quick unwind=11
+//@ props=C01,C05,C20 tier=quick unwind=11 witness=completed
 dec!(dec_0_1, 0, 1);
 //@ props=C02 tier=quick unwind=11
 decm!(decm_0_1, 0, 1);
-//@ props=C01,C05,C20 tier=quick unwind=11
+//@ props=C01,C05,C20 tier=quick unwind=11 witness=completed
 dec!(dec_0_2, 0, 2);
 //@ props=C02 tier=quick unwind=11
 decm!(decm_0_2, 0, 2);
 //@ props=C05,C10,C06,C07 tier=thorough unwind=11
 renc!(renc_0_2, 0, 2);
-//@ props=C01,C05 tier=thorough unwind=12
+//@ props=C01,C05 tier=thorough unwind=12 witness=completed
 dec!(dec_0_3, 0, 3);
 //@ props=C02 tier=thorough unwind=12
 decm!(decm_0_3, 0, 3);
 //@ props=C05,C10,C06,C07 tier=quick unwind=12
 renc!(renc_0_3, 0, 3);
-//@ props=C01,C05,C20 tier=thorough unwind=9 stubs=utf8
+//@ props=C01,C05,C20 tier=thorough unwind=9 stubs=utf8 witness=completed
 dec!(dec_1_0, 1, 0);
 //@ props=C02 tier=thorough unwind=9 stubs=utf8
 decm!(decm_1_0, 1, 0);
-//@ props=C01,C05,C20 tier=quick unwind=10 stubs=utf8
+//@ props=C01,C05,C20 tier=quick unwind=10 stubs=utf8 witness=completed
 dec!(dec_1_1, 1, 1);
 //@ props=C02 tier=quick unwind=10 stubs=utf8
 decm!(decm_1_1, 1, 1);
-//@ props=C01,C05,C20,C03 tier=quick unwind=11 stubs=utf8
+//@ props=C01,C05,C20,C03 tier=quick unwind=11 stubs=utf8 witness=completed,result_code_accepted
 dec!(dec_1_2, 1, 2);
 //@ props=C02 tier=quick unwind=11 stubs=utf8
 decm!(decm_1_2, 1, 2);
-//@ props=C01,C05,C03 tier=thorough unwind=12 stubs=utf8
+//@ props=C01,C05,C03 tier=thorough unwind=12 stubs=utf8 witness=completed,result_code_accepted
 dec!(dec_1_3, 1, 3);
 //@ props=C02 tier=thorough unwind=12 stubs=utf8
 decm!(decm_1_3, 1, 3);
-//@ props=C01,C05,C20,C03 tier=quick unwind=13 stubs=utf8
+//@ props=C01,C05,C20,C03 tier=quick unwind=13 stubs=utf8 witness=completed,result_code_accepted
 dec!(dec_1_4, 1, 4);
 //@ props=C02 tier=quick unwind=13 stubs=utf8
 decm!(decm_1_4, 1, 4);
-//@ props=C01,C05,C20,C03 tier=thorough unwind=14 stubs=utf8
+//@ props=C01,C05,C20,C03 tier=thorough unwind=14 stubs=utf8 witness=completed,result_code_accepted
 dec!(dec_1_5, 1, 5);
 //@ props=C02 tier=thorough unwind=14 stubs=utf8
 decm!(decm_1_5, 1, 5);
-//@ props=C01,C05,C20,C03 tier=quick unwind=16 stubs=utf8
+//@ props=C01,C05,C20,C03 tier=quick unwind=16 stubs=utf8 witness=completed,result_code_accepted
 dec!(dec_1_7, 1, 7);
 //@ props=C02 tier=quick unwind=16 stubs=utf8
 decm!(decm_1_7, 1, 7);
-//@ props=C01,C05,C20,C03 tier=thorough unwind=17 stubs=utf8
+//@ props=C01,C05,C20,C03 tier=thorough unwind=17 stubs=utf8 witness=completed,result_code_accepted
 dec!(dec_1_8, 1, 8);
 //@ props=C02 tier=thorough unwind=17 stubs=utf8
 decm!(decm_1_8, 1, 8);
-//@ props=C01,C05,C20 tier=thorough unwind=11
+//@ props=C01,C05,C20 tier=thorough unwind=11 witness=completed
 dec!(dec_2_0, 2, 0);
 //@ props=C02 tier=thorough unwind=11
 decm!(decm_2_0, 2, 0);
-//@ props=C01,C05,C20 tier=quick unwind=11
+//@ props=C01,C05,C20 tier=quick unwind=11 witness=completed
 dec!(dec_2_1, 2, 1);
 //@ props=C02 tier=quick unwind=11
 decm!(decm_2_1, 2, 1);
-//@ props=C01,C05,C20 tier=quick unwind=11
+//@ props=C01,C05,C20 tier=quick unwind=11 witness=completed
 dec!(dec_2_2, 2, 2);
 //@ props=C02 tier=quick unwind=11
 decm!(decm_2_2, 2, 2);
 //@ props=C05,C10,C06,C07 tier=thorough unwind=11
 renc!(renc_2_2, 2, 2);
-//@ props=C01,C05 tier=thorough unwind=12
+//@ props=C01,C05 tier=thorough unwind=12 witness=completed
 dec!(dec_2_3, 2, 3);
 //@ props=C02 tier=thorough unwind=12
 decm!(decm_2_3, 2, 3);
 //@ props=C05,C10,C06,C07 tier=quick unwind=12
 renc!(renc_2_3, 2, 3);
-//@ props=C01,C05,C20 tier=thorough unwind=13
+//@ props=C01,C05,C20 tier=thorough unwind=13 witness=completed
 dec!(dec_3_0, 3, 0);
 //@ props=C02 tier=thorough unwind=13
 decm!(decm_3_0, 3, 0);
-//@ props=C01,C05,C20 tier=quick unwind=13
+//@ props=C01,C05,C20 tier=quick unwind=13 witness=completed
 dec!(dec_3_3, 3, 3);
 //@ props=C02 tier=quick unwind=13
 decm!(decm_3_3, 3, 3);
-//@ props=C01,C05,C20 tier=quick unwind=13
+//@ props=C01,C05,C20 tier=quick unwind=13 witness=completed
 dec!(dec_3_4, 3, 4);
 //@ props=C02 tier=quick unwind=13
 decm!(decm_3_4, 3, 4);
 //@ props=C05,C10,C06,C07 tier=thorough unwind=13
 renc!(renc_3_4, 3, 4);
-//@ props=C01,C05 tier=thorough unwind=14
+//@ props=C01,C05 tier=thorough unwind=14 witness=completed
 dec!(dec_3_5, 3, 5);
 //@ props=C02 tier=thorough unwind=14
 decm!(decm_3_5, 3, 5);
 //@ props=C05,C10,C06,C07 tier=quick unwind=14
 renc!(renc_3_5, 3, 5);
-//@ props=C01,C05,C20 tier=thorough unwind=13
+//@ props=C01,C05,C20 tier=thorough unwind=13 witness=completed
 dec!(dec_4_0, 4, 0);
 //@ props=C02 tier=thorough unwind=13
 decm!(decm_4_0, 4, 0);
-//@ props=C01,C05,C20 tier=quick unwind=13
+//@ props=C01,C05,C20 tier=quick unwind=13 witness=completed
 dec!(dec_4_3, 4, 3);
 //@ props=C02 tier=quick unwind=13
 decm!(decm_4_3, 4, 3);
-//@ props=C01,C05,C20 tier=quick unwind=13
+//@ props=C01,C05,C20 tier=quick unwind=13 witness=completed
 dec!(dec_4_4, 4, 4);
 //@ props=C02 tier=quick unwind=13
 decm!(decm_4_4, 4, 4);
 //@ props=C05,C10,C06,C07 tier=thorough unwind=13
 renc!(renc_4_4, 4, 4);
-//@ props=C01,C05 tier=thorough unwind=14
+//@ props=C01,C05 tier=thorough unwind=14 witness=completed
 dec!(dec_4_5, 4, 5);
 //@ props=C02 tier=thorough unwind=14
 decm!(decm_4_5, 4, 5);
 //@ props=C05,C10,C06,C07 tier=quick unwind=14
 renc!(renc_4_5, 4, 5);
-//@ props=C01,C05,C20 tier=thorough unwind=17
+//@ props=C01,C05,C20 tier=thorough unwind=17 witness=completed
 dec!(dec_5_0, 5, 0);
 //@ props=C02 tier=thorough unwind=17
 decm!(decm_5_0, 5, 0);
-//@ props=C01,C05,C20 tier=quick unwind=17
+//@ props=C01,C05,C20 tier=quick unwind=17 witness=completed
 dec!(dec_5_7, 5, 7);
 //@ props=C02 tier=quick unwind=17
 decm!(decm_5_7, 5, 7);
-//@ props=C01,C05,C20 tier=quick unwind=17
+//@ props=C01,C05,C20 tier=quick unwind=17 witness=completed
 dec!(dec_5_8, 5, 8);
 //@ props=C02 tier=quick unwind=17
 decm!(decm_5_8, 5, 8);
 //@ props=C05,C10,C06,C07 tier=thorough unwind=17
 renc!(renc_5_8, 5, 8);
-//@ props=C01,C05 tier=thorough unwind=18
+//@ props=C01,C05 tier=thorough unwind=18 witness=completed
 dec!(dec_5_9, 5, 9);
 //@ props=C02 tier=thorough unwind=18
 decm!(decm_5_9, 5, 9);
 //@ props=C05,C10,C06,C07 tier=quick unwind=18
 renc!(renc_5_9, 5, 9);
-//@ props=C01,C05,C20 tier=thorough unwind=11
+//@ props=C01,C05,C20 tier=thorough unwind=11 witness=completed
 dec!(dec_6_0, 6, 0);
 //@ props=C02 tier=thorough unwind=11
 decm!(decm_6_0, 6, 0);
-//@ props=C01,C05,C20 tier=quick unwind=11
+//@ props=C01,C05,C20 tier=quick unwind=11 witness=completed
 dec!(dec_6_1, 6, 1);
 //@ props=C02 tier=quick unwind=11
 decm!(decm_6_1, 6, 1);
-//@ props=C01,C05,C20 tier=quick unwind=11
+//@ props=C01,C05,C20 tier=quick unwind=11 witness=completed
 dec!(dec_6_2, 6, 2);
 //@ props=C02 tier=quick unwind=11
 decm!(decm_6_2, 6, 2);
 //@ props=C05,C10,C06,C07 tier=thorough unwind=11
 renc!(renc_6_2, 6, 2);
-//@ props=C01,C05 tier=thorough unwind=12
+//@ props=C01,C05 tier=thorough unwind=12 witness=completed
 dec!(dec_6_3, 6, 3);
 //@ props=C02 tier=thorough unwind=12
 decm!(decm_6_3, 6, 3);
 //@ props=C05,C10,C06,C07 tier=quick unwind=12
 renc!(renc_6_3, 6, 3);
-//@ props=C01,C05,C20 tier=quick unwind=9
+//@ props=C01,C05,C20 tier=quick unwind=9 witness=completed
 dec!(dec_7_0, 7, 0);
 //@ props=C02 tier=quick unwind=9
 decm!(decm_7_0, 7, 0);
-//@ props=C01,C05,C20 tier=thorough unwind=10
+//@ props=C01,C05,C20 tier=thorough unwind=10 witness=completed
 dec!(dec_7_1, 7, 1);
 //@ props=C02 tier=thorough unwind=10
 decm!(decm_7_1, 7, 1);
 //@ props=C05,C10,C06,C07 tier=thorough unwind=10
 renc!(renc_7_1, 7, 1);
-//@ props=C01,C05,C20 tier=quick unwind=12
+//@ props=C01,C05,C20 tier=quick unwind=12 witness=completed
 dec!(dec_7_3, 7, 3);
 //@ props=C02 tier=quick unwind=12
 decm!(decm_7_3, 7, 3);
 //@ props=C05,C10,C06,C07 tier=quick unwind=12
 renc!(renc_7_3, 7, 3);
-//@ props=C01,C05,C20 tier=thorough unwind=16
+//@ props=C01,C05,C20 tier=thorough unwind=16 witness=completed
 dec!(dec_7_7, 7, 7);
 //@ props=C02 tier=thorough unwind=16
 decm!(decm_7_7, 7, 7);
 //@ props=C05,C10,C06,C07 tier=thorough unwind=16
 renc!(renc_7_7, 7, 7);
-//@ props=C01,C05,C20 tier=quick unwind=9 stubs=utf8
+//@ props=C01,C05,C20 tier=quick unwind=9 stubs=utf8 witness=completed
 dec!(dec_8_0, 8, 0);
 //@ props=C02 tier=quick unwind=9 stubs=utf8
 decm!(decm_8_0, 8, 0);
-//@ props=C01,C05,C20 tier=thorough unwind=10 stubs=utf8
+//@ props=C01,C05,C20 tier=thorough unwind=10 stubs=utf8 witness=completed
 dec!(dec_8_1, 8, 1);
 //@ props=C02 tier=thorough unwind=10 stubs=utf8
 decm!(decm_8_1, 8, 1);
 //@ props=C05,C10,C06,C07 tier=thorough unwind=10 stubs=utf8
 renc!(renc_8_1, 8, 1);
-//@ props=C01,C05,C20 tier=thorough unwind=11 stubs=utf8
+//@ props=C01,C05,C20 tier=thorough unwind=11 stubs=utf8 witness=completed
 dec!(dec_8_2, 8, 2);
 //@ props=C02 tier=thorough unwind=11 stubs=utf8
 decm!(decm_8_2, 8, 2);
 //@ props=C05,C10,C06,C07 tier=thorough unwind=11 stubs=utf8
 renc!(renc_8_2, 8, 2);
-//@ props=C01,C05,C20 tier=quick unwind=12 stubs=utf8
+//@ props=C01,C05,C20 tier=quick unwind=12 stubs=utf8 witness=completed
 dec!(dec_8_3, 8, 3);
 //@ props=C02 tier=quick unwind=12 stubs=utf8
 decm!(decm_8_3, 8, 3);
 //@ props=C05,C10,C06,C07 tier=quick unwind=12 stubs=utf8
 renc!(renc_8_3, 8, 3);
-//@ props=C01,C05,C20 tier=thorough unwind=13 stubs=utf8
+//@ props=C01,C05,C20 tier=thorough unwind=13 stubs=utf8 witness=completed
 dec!(dec_8_4, 8, 4);
 //@ props=C02 tier=thorough unwind=13 stubs=utf8
 decm!(decm_8_4, 8, 4);
 //@ props=C05,C10,C06,C07 tier=thorough unwind=13 stubs=utf8
 renc!(renc_8_4, 8, 4);
-//@ props=C01,C05,C20 tier=thorough unwind=14 stubs=utf8
+//@ props=C01,C05,C20 tier=thorough unwind=14 stubs=utf8 witness=completed
 dec!(dec_8_5, 8, 5);
 //@ props=C02 tier=thorough unwind=14 stubs=utf8
 decm!(decm_8_5, 8, 5);
 //@ props=C05,C10,C06,C07 tier=thorough unwind=14 stubs=utf8
 renc!(renc_8_5, 8, 5);
-//@ props=C01,C05,C20 tier=thorough unwind=15 stubs=utf8
+//@ props=C01,C05,C20 tier=thorough unwind=15 stubs=utf8 witness=completed
 dec!(dec_8_6, 8, 6);
 //@ props=C02 tier=thorough unwind=15 stubs=utf8
 decm!(decm_8_6, 8, 6);
 //@ props=C05,C10,C06,C07 tier=thorough unwind=15 stubs=utf8
 renc!(renc_8_6, 8, 6);
-//@ props=C01,C05,C20 tier=thorough unwind=11
+//@ props=C01,C05,C20 tier=thorough unwind=11 witness=completed
 dec!(dec_9_0, 9, 0);
 //@ props=C02 tier=thorough unwind=11
 decm!(decm_9_0, 9, 0);
-//@ props=C01,C05,C20 tier=quick unwind=11
+//@ props=C01,C05,C20 tier=quick unwind=11 witness=completed
 dec!(dec_9_1, 9, 1);
 //@ props=C02 tier=quick unwind=11
 decm!(decm_9_1, 9, 1);
-//@ props=C01,C05,C20 tier=quick unwind=11
+//@ props=C01,C05,C20 tier=quick unwind=11 witness=completed
 dec!(dec_9_2, 9, 2);
 //@ props=C02 tier=quick unwind=11
 decm!(decm_9_2, 9, 2);
 //@ props=C05,C10,C06,C07 tier=thorough unwind=11
 renc!(renc_9_2, 9, 2);
-//@ props=C01,C05 tier=thorough unwind=12
+//@ props=C01,C05 tier=thorough unwind=12 witness=completed
 dec!(dec_9_3, 9, 3);
 //@ props=C02 tier=thorough unwind=12
 decm!(decm_9_3, 9, 3);
 //@ props=C05,C10,C06,C07 tier=quick unwind=12
 renc!(renc_9_3, 9, 3);
-//@ props=C01,C05,C20 tier=thorough unwind=11
+//@ props=C01,C05,C20 tier=thorough unwind=11 witness=completed
 dec!(dec_10_0, 10, 0);
 //@ props=C02 tier=thorough unwind=11
 decm!(decm_10_0, 10, 0);
-//@ props=C01,C05,C20 tier=quick unwind=11
+//@ props=C01,C05,C20 tier=quick unwind=11 witness=completed
 dec!(dec_10_1, 10, 1);
 //@ props=C02 tier=quick unwind=11
 decm!(decm_10_1, 10, 1);
-//@ props=C01,C05,C20 tier=quick unwind=11
+//@ props=C01,C05,C20 tier=quick unwind=11 witness=completed
 dec!(dec_10_2, 10, 2);
 //@ props=C02 tier=quick unwind=11
 decm!(decm_10_2, 10, 2);
 //@ props=C05,C10,C06,C07 tier=thorough unwind=11
 renc!(renc_10_2, 10, 2);
-//@ props=C01,C05 tier=thorough unwind=12
+//@ props=C01,C05 tier=thorough unwind=12 witness=completed
 dec!(dec_10_3, 10, 3);
 //@ props=C02 tier=thorough unwind=12
 decm!(decm_10_3, 10, 3);
 //@ props=C05,C10,C06,C07 tier=quick unwind=12
 renc!(renc_10_3, 10, 3);
-//@ props=C01,C05,C20 tier=quick unwind=9
+//@ props=C01,C05,C20 tier=quick unwind=9 witness=completed
 dec!(dec_11_0, 11, 0);
 //@ props=C02 tier=quick unwind=9
 decm!(decm_11_0, 11, 0);
-//@ props=C01,C05,C20 tier=thorough unwind=10
+//@ props=C01,C05,C20 tier=thorough unwind=10 witness=completed
 dec!(dec_11_1, 11, 1);
 //@ props=C02 tier=thorough unwind=10
 decm!(decm_11_1, 11, 1);
 //@ props=C05,C10,C06,C07 tier=thorough unwind=10
 renc!(renc_11_1, 11, 1);
-//@ props=C01,C05,C20 tier=quick unwind=12
+//@ props=C01,C05,C20 tier=quick unwind=12 witness=completed
 dec!(dec_11_3, 11, 3);
 //@ props=C02 tier=quick unwind=12
 decm!(decm_11_3, 11, 3);
 //@ props=C05,C10,C06,C07 tier=quick unwind=12
 renc!(renc_11_3, 11, 3);
-//@ props=C01,C05,C20 tier=thorough unwind=16
+//@ props=C01,C05,C20 tier=thorough unwind=16 witness=completed
 dec!(dec_11_7, 11, 7);
 //@ props=C02 tier=thorough unwind=16
 decm!(decm_11_7, 11, 7);
 //@ props=C05,C10,C06,C07 tier=thorough unwind=16
 renc!(renc_11_7, 11, 7);
-//@ props=C01,C05,C20 tier=thorough unwind=9 stubs=utf8
+//@ props=C01,C05,C20 tier=thorough unwind=9 stubs=utf8 witness=completed
 dec!(dec_12_0, 12, 0);
 //@ props=C02 tier=thorough unwind=9 stubs=utf8
 decm!(decm_12_0, 12, 0);
-//@ props=C01,C05,C20 tier=quick unwind=11 stubs=utf8
+//@ props=C01,C05,C20 tier=quick unwind=11 stubs=utf8 witness=completed
 dec!(dec_12_2, 12, 2);
 //@ props=C02 tier=quick unwind=11 stubs=utf8
 decm!(decm_12_2, 12, 2);
-//@ props=C01,C05,C20 tier=quick unwind=12 stubs=utf8
+//@ props=C01,C05,C20 tier=quick unwind=12 stubs=utf8 witness=completed
 dec!(dec_12_3, 12, 3);
 //@ props=C02 tier=quick unwind=12 stubs=utf8
 decm!(decm_12_3, 12, 3);
 //@ props=C05,C10,C06,C07 tier=quick unwind=12 stubs=utf8
 renc!(renc_12_3, 12, 3);
-//@ props=C01,C05,C20 tier=thorough unwind=13 stubs=utf8
+//@ props=C01,C05,C20 tier=thorough unwind=13 stubs=utf8 witness=completed
 dec!(dec_12_4, 12, 4);
 //@ props=C02 tier=thorough unwind=13 stubs=utf8
 decm!(decm_12_4, 12, 4);
 //@ props=C05,C10,C06,C07 tier=thorough unwind=13 stubs=utf8
 renc!(renc_12_4, 12, 4);
-//@ props=C01,C05,C20 tier=quick unwind=15 stubs=utf8
+//@ props=C01,C05,C20 tier=quick unwind=15 stubs=utf8 witness=completed
 dec!(dec_12_6, 12, 6);
 //@ props=C02 tier=quick unwind=15 stubs=utf8
 decm!(decm_12_6, 12, 6);
 //@ props=C05,C10,C06,C07 tier=quick unwind=15 stubs=utf8
 renc!(renc_12_6, 12, 6);
-//@ props=C01,C05,C20 tier=thorough unwind=16 stubs=utf8
+//@ props=C01,C05,C20 tier=thorough unwind=16 stubs=utf8 witness=completed
 dec!(dec_12_7, 12, 7);
 //@ props=C02 tier=thorough unwind=16 stubs=utf8
 decm!(decm_12_7, 12, 7);
 //@ props=C05,C10,C06,C07 tier=thorough unwind=16 stubs=utf8
 renc!(renc_12_7, 12, 7);
-//@ props=C01,C05,C20 tier=thorough unwind=25
+//@ props=C01,C05,C20 tier=thorough unwind=25 witness=completed
 dec!(dec_13_0, 13, 0);
 //@ props=C02 tier=thorough unwind=25
 decm!(decm_13_0, 13, 0);
-//@ props=C01,C05,C20 tier=quick unwind=25
+//@ props=C01,C05,C20 tier=quick unwind=25 witness=completed
 dec!(dec_13_15, 13, 15);
 //@ props=C02 tier=quick unwind=25
 decm!(decm_13_15, 13, 15);
-//@ props=C01,C05,C20 tier=quick unwind=25
+//@ props=C01,C05,C20 tier=quick unwind=25 witness=completed
 dec!(dec_13_16, 13, 16);
 //@ props=C02 tier=quick unwind=25
 decm!(decm_13_16, 13, 16);
 //@ props=C05,C10,C06,C07 tier=thorough unwind=25
 renc!(renc_13_16, 13, 16);
-//@ props=C01,C05 tier=thorough unwind=26
+//@ props=C01,C05 tier=thorough unwind=26 witness=completed
 dec!(dec_13_17, 13, 17);
 //@ props=C02 tier=thorough unwind=26
 decm!(decm_13_17, 13, 17);
 //@ props=C05,C10,C06,C07 tier=quick unwind=26
 renc!(renc_13_17, 13, 17);
-//@ props=C01,C05,C20 tier=thorough unwind=11
+//@ props=C01,C05,C20 tier=thorough unwind=11 witness=completed
 dec!(dec_14_0, 14, 0);
 //@ props=C02 tier=thorough unwind=11
 decm!(decm_14_0, 14, 0);
-//@ props=C01,C05,C20 tier=quick unwind=11
+//@ props=C01,C05,C20 tier=quick unwind=11 witness=completed
 dec!(dec_14_1, 14, 1);
 //@ props=C02 tier=quick unwind=11
 decm!(decm_14_1, 14, 1);
-//@ props=C01,C05,C20 tier=quick unwind=11
+//@ props=C01,C05,C20 tier=quick unwind=11 witness=completed
 dec!(dec_14_2, 14, 2);
 //@ props=C02 tier=quick unwind=11
 decm!(decm_14_2, 14, 2);
 //@ props=C05,C10,C06,C07 tier=thorough unwind=11
 renc!(renc_14_2, 14, 2);
-//@ props=C01,C05 tier=thorough unwind=12
+//@ props=C01,C05 tier=thorough unwind=12 witness=completed
 dec!(dec_14_3, 14, 3);
 //@ props=C02 tier=thorough unwind=12
 decm!(decm_14_3, 14, 3);
 //@ props=C05,C10,C06,C07 tier=quick unwind=12
 renc!(renc_14_3, 14, 3);
-//@ props=C01,C05,C20 tier=thorough unwind=13
+//@ props=C01,C05,C20 tier=thorough unwind=13 witness=completed
 dec!(dec_15_0, 15, 0);
 //@ props=C02 tier=thorough unwind=13
 decm!(decm_15_0, 15, 0);
-//@ props=C01,C05,C20 tier=quick unwind=13
+//@ props=C01,C05,C20 tier=quick unwind=13 witness=completed
 dec!(dec_15_3, 15, 3);
 //@ props=C02 tier=quick unwind=13
 decm!(decm_15_3, 15, 3);
-//@ props=C01,C05,C20 tier=quick unwind=13
+//@ props=C01,C05,C20 tier=quick unwind=13 witness=completed
 dec!(dec_15_4, 15, 4);
 //@ props=C02 tier=quick unwind=13
 decm!(decm_15_4, 15, 4);
 //@ props=C05,C10,C06,C07 tier=thorough unwind=13
 renc!(renc_15_4, 15, 4);
-//@ props=C01,C05 tier=thorough unwind=14
+//@ props=C01,C05 tier=thorough unwind=14 witness=completed
 dec!(dec_15_5, 15, 5);
 //@ props=C02 tier=thorough unwind=14
 decm!(decm_15_5, 15, 5);
 //@ props=C05,C10,C06,C07 tier=quick unwind=14
 renc!(renc_15_5, 15, 5);
-//@ props=C01,C05,C20 tier=thorough unwind=13
+//@ props=C01,C05,C20 tier=thorough unwind=13 witness=completed
 dec!(dec_16_0, 16, 0);
 //@ props=C02 tier=thorough unwind=13
 decm!(decm_16_0, 16, 0);
-//@ props=C01,C05,C20 tier=quick unwind=13
+//@ props=C01,C05,C20 tier=quick unwind=13 witness=completed
 dec!(dec_16_3, 16, 3);
 //@ props=C02 tier=quick unwind=13
 decm!(decm_16_3, 16, 3);
-//@ props=C01,C05,C20 tier=quick unwind=13
+//@ props=C01,C05,C20 tier=quick unwind=13 witness=completed
 dec!(dec_16_4, 16, 4);
 //@ props=C02 tier=quick unwind=13
 decm!(decm_16_4, 16, 4);
 //@ props=C05,C10,C06,C07 tier=thorough unwind=13
 renc!(renc_16_4, 16, 4);
-//@ props=C01,C05 tier=thorough unwind=14
+//@ props=C01,C05 tier=thorough unwind=14 witness=completed
 dec!(dec_16_5, 16, 5);
 //@ props=C02 tier=thorough unwind=14
 decm!(decm_16_5, 16, 5);
 //@ props=C05,C10,C06,C07 tier=quick unwind=14
 renc!(renc_16_5, 16, 5);
-//@ props=C01,C05,C20 tier=thorough unwind=13
+//@ props=C01,C05,C20 tier=thorough unwind=13 witness=completed
 dec!(dec_17_0, 17, 0);
 //@ props=C02 tier=thorough unwind=13
 decm!(decm_17_0, 17, 0);
-//@ props=C01,C05,C20 tier=quick unwind=13
+//@ props=C01,C05,C20 tier=quick unwind=13 witness=completed
 dec!(dec_17_3, 17, 3);
 //@ props=C02 tier=quick unwind=13
 decm!(decm_17_3, 17, 3);
-//@ props=C01,C05,C20 tier=quick unwind=13
+//@ props=C01,C05,C20 tier=quick unwind=13 witness=completed
 dec!(dec_17_4, 17, 4);
 //@ props=C02 tier=quick unwind=13
 decm!(decm_17_4, 17, 4);
 //@ props=C05,C10,C06,C07 tier=thorough unwind=13
 renc!(renc_17_4, 17, 4);
-//@ props=C01,C05 tier=thorough unwind=14
+//@ props=C01,C05 tier=thorough unwind=14 witness=completed
 dec!(dec_17_5, 17, 5);
 //@ props=C02 tier=thorough unwind=14
 decm!(decm_17_5, 17, 5);
 //@ props=C05,C10,C06,C07 tier=quick unwind=14
 renc!(renc_17_5, 17, 5);
-//@ props=C01,C05,C20 tier=thorough unwind=13
+//@ props=C01,C05,C20 tier=thorough unwind=13 witness=completed
 dec!(dec_18_0, 18, 0);
 //@ props=C02 tier=thorough unwind=13
 decm!(decm_18_0, 18, 0);
-//@ props=C01,C05,C20 tier=quick unwind=13
+//@ props=C01,C05,C20 tier=quick unwind=13 witness=completed
 dec!(dec_18_3, 18, 3);
 //@ props=C02 tier=quick unwind=13
 decm!(decm_18_3, 18, 3);
-//@ props=C01,C05,C20 tier=quick unwind=13
+//@ props=C01,C05,C20 tier=quick unwind=13 witness=completed
 dec!(dec_18_4, 18, 4);
 //@ props=C02 tier=quick unwind=13
 decm!(decm_18_4, 18, 4);
 //@ props=C05,C10,C06,C07 tier=thorough unwind=13
 renc!(renc_18_4, 18, 4);
-//@ props=C01,C05 tier=thorough unwind=14
+//@ props=C01,C05 tier=thorough unwind=14 witness=completed
 dec!(dec_18_5, 18, 5);
 //@ props=C02 tier=thorough unwind=14
 decm!(decm_18_5, 18, 5);
 //@ props=C05,C10,C06,C07 tier=quick unwind=14
 renc!(renc_18_5, 18, 5);
-//@ props=C01,C05,C20 tier=thorough unwind=13
+//@ props=C01,C05,C20 tier=thorough unwind=13 witness=completed
 dec!(dec_19_0, 19, 0);
 //@ props=C02 tier=thorough unwind=13
 decm!(decm_19_0, 19, 0);
-//@ props=C01,C05,C20 tier=quick unwind=13
+//@ props=C01,C05,C20 tier=quick unwind=13 witness=completed
 dec!(dec_19_3, 19, 3);
 //@ props=C02 tier=quick unwind=13
 decm!(decm_19_3, 19, 3);
-//@ props=C01,C05,C20 tier=quick unwind=13
+//@ props=C01,C05,C20 tier=quick unwind=13 witness=completed
 dec!(dec_19_4, 19, 4);
 //@ props=C02 tier=quick unwind=13
 decm!(decm_19_4, 19, 4);
 //@ props=C05,C10,C06,C07 tier=thorough unwind=13
 renc!(renc_19_4, 19, 4);
-//@ props=C01,C05 tier=thorough unwind=14
+//@ props=C01,C05 tier=thorough unwind=14 witness=completed
 dec!(dec_19_5, 19, 5);
 //@ props=C02 tier=thorough unwind=14
 decm!(decm_19_5, 19, 5);
 //@ props=C05,C10,C06,C07 tier=quick unwind=14
 renc!(renc_19_5, 19, 5);
-//@ props=C01,C05,C20 tier=thorough unwind=9
+//@ props=C01,C05,C20 tier=thorough unwind=9 witness=completed
 dec!(dec_20_0, 20, 0);
 //@ props=C02 tier=thorough unwind=9
 decm!(decm_20_0, 20, 0);
-//@ props=C01,C05,C20 tier=quick unwind=11
+//@ props=C01,C05,C20 tier=quick unwind=11 witness=completed
 dec!(dec_20_2, 20, 2);
 //@ props=C02 tier=quick unwind=11
 decm!(decm_20_2, 20, 2);
-//@ props=C01,C05,C20 tier=quick unwind=9 stubs=utf8
+//@ props=C01,C05,C20 tier=quick unwind=9 stubs=utf8 witness=completed
 dec!(dec_21_0, 21, 0);
 //@ props=C02 tier=quick unwind=9 stubs=utf8
 decm!(decm_21_0, 21, 0);
-//@ props=C01,C05,C20 tier=thorough unwind=10 stubs=utf8
+//@ props=C01,C05,C20 tier=thorough unwind=10 stubs=utf8 witness=completed
 dec!(dec_21_1, 21, 1);
 //@ props=C02 tier=thorough unwind=10 stubs=utf8
 decm!(decm_21_1, 21, 1);
 //@ props=C05,C10,C06,C07 tier=thorough unwind=10 stubs=utf8
 renc!(renc_21_1, 21, 1);
-//@ props=C01,C05,C20 tier=thorough unwind=11 stubs=utf8
+//@ props=C01,C05,C20 tier=thorough unwind=11 stubs=utf8 witness=completed
 dec!(dec_21_2, 21, 2);
 //@ props=C02 tier=thorough unwind=11 stubs=utf8
 decm!(decm_21_2, 21, 2);
 //@ props=C05,C10,C06,C07 tier=thorough unwind=11 stubs=utf8
 renc!(renc_21_2, 21, 2);
-//@ props=C01,C05,C20 tier=quick unwind=12 stubs=utf8
+//@ props=C01,C05,C20 tier=quick unwind=12 stubs=utf8 witness=completed
 dec!(dec_21_3, 21, 3);
 //@ props=C02 tier=quick unwind=12 stubs=utf8
 decm!(decm_21_3, 21, 3);
 //@ props=C05,C10,C06,C07 tier=quick unwind=12 stubs=utf8
 renc!(renc_21_3, 21, 3);
-//@ props=C01,C05,C20 tier=thorough unwind=13 stubs=utf8
+//@ props=C01,C05,C20 tier=thorough unwind=13 stubs=utf8 witness=completed
 dec!(dec_21_4, 21, 4);
 //@ props=C02 tier=thorough unwind=13 stubs=utf8
 decm!(decm_21_4, 21, 4);
 //@ props=C05,C10,C06,C07 tier=thorough unwind=13 stubs=utf8
 renc!(renc_21_4, 21, 4);
-//@ props=C01,C05,C20 tier=thorough unwind=14 stubs=utf8
+//@ props=C01,C05,C20 tier=thorough unwind=14 stubs=utf8 witness=completed
 dec!(dec_21_5, 21, 5);
 //@ props=C02 tier=thorough unwind=14 stubs=utf8
 decm!(decm_21_5, 21, 5);
 //@ props=C05,C10,C06,C07 tier=thorough unwind=14 stubs=utf8
 renc!(renc_21_5, 21, 5);
-//@ props=C01,C05,C20 tier=thorough unwind=15 stubs=utf8
+//@ props=C01,C05,C20 tier=thorough unwind=15 stubs=utf8 witness=completed
 dec!(dec_21_6, 21, 6);
 //@ props=C02 tier=thorough unwind=15 stubs=utf8
 decm!(decm_21_6, 21, 6);
 //@ props=C05,C10,C06,C07 tier=thorough unwind=15 stubs=utf8
 renc!(renc_21_6, 21, 6);
-//@ props=C01,C05,C20 tier=quick unwind=9 stubs=utf8
+//@ props=C01,C05,C20 tier=quick unwind=9 stubs=utf8 witness=completed
 dec!(dec_22_0, 22, 0);
 //@ props=C02 tier=quick unwind=9 stubs=utf8
 decm!(decm_22_0, 22, 0);
-//@ props=C01,C05,C20 tier=thorough unwind=10 stubs=utf8
+//@ props=C01,C05,C20 tier=thorough unwind=10 stubs=utf8 witness=completed
 dec!(dec_22_1, 22, 1);
 //@ props=C02 tier=thorough unwind=10 stubs=utf8
 decm!(decm_22_1, 22, 1);
 //@ props=C05,C10,C06,C07 tier=thorough unwind=10 stubs=utf8
 renc!(renc_22_1, 22, 1);
-//@ props=C01,C05,C20 tier=thorough unwind=11 stubs=utf8
+//@ props=C01,C05,C20 tier=thorough unwind=11 stubs=utf8 witness=completed
 dec!(dec_22_2, 22, 2);
 //@ props=C02 tier=thorough unwind=11 stubs=utf8
 decm!(decm_22_2, 22, 2);
 //@ props=C05,C10,C06,C07 tier=thorough unwind=11 stubs=utf8
 renc!(renc_22_2, 22, 2);
-//@ props=C01,C05,C20 tier=quick unwind=12 stubs=utf8
+//@ props=C01,C05,C20 tier=quick unwind=12 stubs=utf8 witness=completed
 dec!(dec_22_3, 22, 3);
 //@ props=C02 tier=quick unwind=12 stubs=utf8
 decm!(decm_22_3, 22, 3);
 //@ props=C05,C10,C06,C07 tier=quick unwind=12 stubs=utf8
 renc!(renc_22_3, 22, 3);
-//@ props=C01,C05,C20 tier=thorough unwind=13 stubs=utf8
+//@ props=C01,C05,C20 tier=thorough unwind=13 stubs=utf8 witness=completed
 dec!(dec_22_4, 22, 4);
 //@ props=C02 tier=thorough unwind=13 stubs=utf8
 decm!(decm_22_4, 22, 4);
 //@ props=C05,C10,C06,C07 tier=thorough unwind=13 stubs=utf8
 renc!(renc_22_4, 22, 4);
-//@ props=C01,C05,C20 tier=thorough unwind=14 stubs=utf8
+//@ props=C01,C05,C20 tier=thorough unwind=14 stubs=utf8 witness=completed
 dec!(dec_22_5, 22, 5);
 //@ props=C02 tier=thorough unwind=14 stubs=utf8
 decm!(decm_22_5, 22, 5);
 //@ props=C05,C10,C06,C07 tier=thorough unwind=14 stubs=utf8
 renc!(renc_22_5, 22, 5);
-//@ props=C01,C05,C20 tier=thorough unwind=15 stubs=utf8
+//@ props=C01,C05,C20 tier=thorough unwind=15 stubs=utf8 witness=completed
 dec!(dec_22_6, 22, 6);
 //@ props=C02 tier=thorough unwind=15 stubs=utf8
 decm!(decm_22_6, 22, 6);
 //@ props=C05,C10,C06,C07 tier=thorough unwind=15 stubs=utf8
 renc!(renc_22_6, 22, 6);
-//@ props=C01,C05,C20 tier=quick unwind=9 stubs=utf8
+//@ props=C01,C05,C20 tier=quick unwind=9 stubs=utf8 witness=completed
 dec!(dec_23_0, 23, 0);
 //@ props=C02 tier=quick unwind=9 stubs=utf8
 decm!(decm_23_0, 23, 0);
-//@ props=C01,C05,C20 tier=thorough unwind=10 stubs=utf8
+//@ props=C01,C05,C20 tier=thorough unwind=10 stubs=utf8 witness=completed
 dec!(dec_23_1, 23, 1);
 //@ props=C02 tier=thorough unwind=10 stubs=utf8
 decm!(decm_23_1, 23, 1);
 //@ props=C05,C10,C06,C07 tier=thorough unwind=10 stubs=utf8
 renc!(renc_23_1, 23, 1);
-//@ props=C01,C05,C20 tier=thorough unwind=11 stubs=utf8
+//@ props=C01,C05,C20 tier=thorough unwind=11 stubs=utf8 witness=completed
 dec!(dec_23_2, 23, 2);
 //@ props=C02 tier=thorough unwind=11 stubs=utf8
 decm!(decm_23_2, 23, 2);
 //@ props=C05,C10,C06,C07 tier=thorough unwind=11 stubs=utf8
 renc!(renc_23_2, 23, 2);
-//@ props=C01,C05,C20 tier=quick unwind=12 stubs=utf8
+//@ props=C01,C05,C20 tier=quick unwind=12 stubs=utf8 witness=completed
 dec!(dec_23_3, 23, 3);
 //@ props=C02 tier=quick unwind=12 stubs=utf8
 decm!(decm_23_3, 23, 3);
 //@ props=C05,C10,C06,C07 tier=quick unwind=12 stubs=utf8
 renc!(renc_23_3, 23, 3);
-//@ props=C01,C05,C20 tier=thorough unwind=13 stubs=utf8
+//@ props=C01,C05,C20 tier=thorough unwind=13 stubs=utf8 witness=completed
 dec!(dec_23_4, 23, 4);
 //@ props=C02 tier=thorough unwind=13 stubs=utf8
 decm!(decm_23_4, 23, 4);
 //@ props=C05,C10,C06,C07 tier=thorough unwind=13 stubs=utf8
 renc!(renc_23_4, 23, 4);
-//@ props=C01,C05,C20 tier=thorough unwind=14 stubs=utf8
+//@ props=C01,C05,C20 tier=thorough unwind=14 stubs=utf8 witness=completed
 dec!(dec_23_5, 23, 5);
 //@ props=C02 tier=thorough unwind=14 stubs=utf8
 decm!(decm_23_5, 23, 5);
 //@ props=C05,C10,C06,C07 tier=thorough unwind=14 stubs=utf8
 renc!(renc_23_5, 23, 5);
-//@ props=C01,C05,C20 tier=thorough unwind=15 stubs=utf8
+//@ props=C01,C05,C20 tier=thorough unwind=15 stubs=utf8 witness=completed
 dec!(dec_23_6, 23, 6);
 //@ props=C02 tier=thorough unwind=15 stubs=utf8
 decm!(decm_23_6, 23, 6);
 //@ props=C05,C10,C06,C07 tier=thorough unwind=15 stubs=utf8
 renc!(renc_23_6, 23, 6);
-//@ props=C01,C05,C20 tier=thorough unwind=13
+//@ props=C01,C05,C20 tier=thorough unwind=13 witness=completed
 dec!(dec_24_0, 24, 0);
 //@ props=C02 tier=thorough unwind=13
 decm!(decm_24_0, 24, 0);
-//@ props=C01,C05,C20 tier=quick unwind=13
+//@ props=C01,C05,C20 tier=quick unwind=13 witness=completed
 dec!(dec_24_3, 24, 3);
 //@ props=C02 tier=quick unwind=13
 decm!(decm_24_3, 24, 3);
-//@ props=C01,C05,C20 tier=quick unwind=13
+//@ props=C01,C05,C20 tier=quick unwind=13 witness=completed
 dec!(dec_24_4, 24, 4);
 //@ props=C02 tier=quick unwind=13
 decm!(decm_24_4, 24, 4);
 //@ props=C05,C10,C06,C07 tier=thorough unwind=13
 renc!(renc_24_4, 24, 4);
-//@ props=C01,C05 tier=thorough unwind=14
+//@ props=C01,C05 tier=thorough unwind=14 witness=completed
 dec!(dec_24_5, 24, 5);
 //@ props=C02 tier=thorough unwind=14
 decm!(decm_24_5, 24, 5);
 //@ props=C05,C10,C06,C07 tier=quick unwind=14
 renc!(renc_24_5, 24, 5);
-//@ props=C01,C05,C20 tier=thorough unwind=13
+//@ props=C01,C05,C20 tier=thorough unwind=13 witness=completed
 dec!(dec_25_0, 25, 0);
 //@ props=C02 tier=thorough unwind=13
 decm!(decm_25_0, 25, 0);
-//@ props=C01,C05,C20 tier=quick unwind=13
+//@ props=C01,C05,C20 tier=quick unwind=13 witness=completed
 dec!(dec_25_3, 25, 3);
 //@ props=C02 tier=quick unwind=13
 decm!(decm_25_3, 25, 3);
-//@ props=C01,C05,C20 tier=quick unwind=13
+//@ props=C01,C05,C20 tier=quick unwind=13 witness=completed
 dec!(dec_25_4, 25, 4);
 //@ props=C02 tier=quick unwind=13
 decm!(decm_25_4, 25, 4);
 //@ props=C05,C10,C06,C07 tier=thorough unwind=13
 renc!(renc_25_4, 25, 4);
-//@ props=C01,C05 tier=thorough unwind=14
+//@ props=C01,C05 tier=thorough unwind=14 witness=completed
 dec!(dec_25_5, 25, 5);
 //@ props=C02 tier=thorough unwind=14
 decm!(decm_25_5, 25, 5);
 //@ props=C05,C10,C06,C07 tier=quick unwind=14
 renc!(renc_25_5, 25, 5);
-//@ props=C01,C05,C20 tier=quick unwind=9
+//@ props=C01,C05,C20 tier=quick unwind=9 witness=completed
 dec!(dec_26_0, 26, 0);
 //@ props=C02 tier=quick unwind=9
 decm!(decm_26_0, 26, 0);
-//@ props=C01,C05,C20 tier=thorough unwind=10
+//@ props=C01,C05,C20 tier=thorough unwind=10 witness=completed
 dec!(dec_26_1, 26, 1);
 //@ props=C02 tier=thorough unwind=10
 decm!(decm_26_1, 26, 1);
 //@ props=C05,C10,C06,C07 tier=thorough unwind=10
 renc!(renc_26_1, 26, 1);
-//@ props=C01,C05,C20 tier=quick unwind=12
+//@ props=C01,C05,C20 tier=quick unwind=12 witness=completed
 dec!(dec_26_3, 26, 3);
 //@ props=C02 tier=quick unwind=12
 decm!(decm_26_3, 26, 3);
 //@ props=C05,C10,C06,C07 tier=quick unwind=12
 renc!(renc_26_3, 26, 3);
-//@ props=C01,C05,C20 tier=thorough unwind=16
+//@ props=C01,C05,C20 tier=thorough unwind=16 witness=completed
 dec!(dec_26_7, 26, 7);
 //@ props=C02 tier=thorough unwind=16
 decm!(decm_26_7, 26, 7);
 //@ props=C05,C10,C06,C07 tier=thorough unwind=16
 renc!(renc_26_7, 26, 7);
-//@ props=C01,C05,C20 tier=quick unwind=9
+//@ props=C01,C05,C20 tier=quick unwind=9 witness=completed
 dec!(dec_27_0, 27, 0);
 //@ props=C02 tier=quick unwind=9
 decm!(decm_27_0, 27, 0);
-//@ props=C01,C05,C20 tier=thorough unwind=10
+//@ props=C01,C05,C20 tier=thorough unwind=10 witness=completed
 dec!(dec_27_1, 27, 1);
 //@ props=C02 tier=thorough unwind=10
 decm!(decm_27_1, 27, 1);
 //@ props=C05,C10,C06,C07 tier=thorough unwind=10
 renc!(renc_27_1, 27, 1);
-//@ props=C01,C05,C20 tier=quick unwind=12
+//@ props=C01,C05,C20 tier=quick unwind=12 witness=completed
 dec!(dec_27_3, 27, 3);
 //@ props=C02 tier=quick unwind=12
 decm!(decm_27_3, 27, 3);
 //@ props=C05,C10,C06,C07 tier=quick unwind=12
 renc!(renc_27_3, 27, 3);
-//@ props=C01,C05,C20 tier=thorough unwind=16
+//@ props=C01,C05,C20 tier=thorough unwind=16 witness=completed
 dec!(dec_27_7, 27, 7);
 //@ props=C02 tier=thorough unwind=16
 decm!(decm_27_7, 27, 7);
 //@ props=C05,C10,C06,C07 tier=thorough unwind=16
 renc!(renc_27_7, 27, 7);
-//@ props=C01,C05,C20 tier=quick unwind=9
+//@ props=C01,C05,C20 tier=quick unwind=9 witness=completed
 dec!(dec_28_0, 28, 0);
 //@ props=C02 tier=quick unwind=9
 decm!(decm_28_0, 28, 0);
-//@ props=C01,C05,C20 tier=thorough unwind=10
+//@ props=C01,C05,C20 tier=thorough unwind=10 witness=completed
 dec!(dec_28_1, 28, 1);
 //@ props=C02 tier=thorough unwind=10
 decm!(decm_28_1, 28, 1);
 //@ props=C05,C10,C06,C07 tier=thorough unwind=10
 renc!(renc_28_1, 28, 1);
-//@ props=C01,C05,C20 tier=quick unwind=12
+//@ props=C01,C05,C20 tier=quick unwind=12 witness=completed
 dec!(dec_28_3, 28, 3);
 //@ props=C02 tier=quick unwind=12
 decm!(decm_28_3, 28, 3);
 //@ props=C05,C10,C06,C07 tier=quick unwind=12
 renc!(renc_28_3, 28, 3);
-//@ props=C01,C05,C20 tier=thorough unwind=16
+//@ props=C01,C05,C20 tier=thorough unwind=16 witness=completed
 dec!(dec_28_7, 28, 7);
 //@ props=C02 tier=thorough unwind=16
 decm!(decm_28_7, 28, 7);
 //@ props=C05,C10,C06,C07 tier=thorough unwind=16
 renc!(renc_28_7, 28, 7);
-//@ props=C01,C05,C20 tier=thorough unwind=11
+//@ props=C01,C05,C20 tier=thorough unwind=11 witness=completed
 dec!(dec_29_0, 29, 0);
 //@ props=C02 tier=thorough unwind=11
 decm!(decm_29_0, 29, 0);
-//@ props=C01,C05,C20 tier=quick unwind=11
+//@ props=C01,C05,C20 tier=quick unwind=11 witness=completed
 dec!(dec_29_1, 29, 1);
 //@ props=C02 tier=quick unwind=11
 decm!(decm_29_1, 29, 1);
-//@ props=C01,C05,C20 tier=quick unwind=11
+//@ props=C01,C05,C20 tier=quick unwind=11 witness=completed
 dec!(dec_29_2, 29, 2);
 //@ props=C02 tier=quick unwind=11
 decm!(decm_29_2, 29, 2);
 //@ props=C05,C10,C06,C07 tier=thorough unwind=11
 renc!(renc_29_2, 29, 2);
-//@ props=C01,C05 tier=thorough unwind=12
+//@ props=C01,C05 tier=thorough unwind=12 witness=completed
 dec!(dec_29_3, 29, 3);
 //@ props=C02 tier=thorough unwind=12
 decm!(decm_29_3, 29, 3);
 //@ props=C05,C10,C06,C07 tier=quick unwind=12
 renc!(renc_29_3, 29, 3);
-//@ props=C01,C05,C20 tier=quick unwind=9
+//@ props=C01,C05,C20 tier=quick unwind=9 witness=completed
 dec!(dec_30_0, 30, 0);
 //@ props=C02 tier=quick unwind=9
 decm!(decm_30_0, 30, 0);
-//@ props=C01,C05,C20 tier=thorough unwind=10
+//@ props=C01,C05,C20 tier=thorough unwind=10 witness=completed
 dec!(dec_30_1, 30, 1);
 //@ props=C02 tier=thorough unwind=10
 decm!(decm_30_1, 30, 1);
 //@ props=C05,C10,C06,C07 tier=thorough unwind=10
 renc!(renc_30_1, 30, 1);
-//@ props=C01,C05,C20 tier=quick unwind=12
+//@ props=C01,C05,C20 tier=quick unwind=12 witness=completed
 dec!(dec_30_3, 30, 3);
 //@ props=C02 tier=quick unwind=12
 decm!(decm_30_3, 30, 3);
 //@ props=C05,C10,C06,C07 tier=quick unwind=12
 renc!(renc_30_3, 30, 3);
-//@ props=C01,C05,C20 tier=thorough unwind=16
+//@ props=C01,C05,C20 tier=thorough unwind=16 witness=completed
 dec!(dec_30_7, 30, 7);
 //@ props=C02 tier=thorough unwind=16
 decm!(decm_30_7, 30, 7);
 //@ props=C05,C10,C06,C07 tier=thorough unwind=16
 renc!(renc_30_7, 30, 7);
-//@ props=C01,C05,C20 tier=quick unwind=9
+//@ props=C01,C05,C20 tier=quick unwind=9 witness=completed
 dec!(dec_31_0, 31, 0);
 //@ props=C02 tier=quick unwind=9
 decm!(decm_31_0, 31, 0);
-//@ props=C01,C05,C20 tier=thorough unwind=10
+//@ props=C01,C05,C20 tier=thorough unwind=10 witness=completed
 dec!(dec_31_1, 31, 1);
 //@ props=C02 tier=thorough unwind=10
 decm!(decm_31_1, 31, 1);
 //@ props=C05,C10,C06,C07 tier=thorough unwind=10
 renc!(renc_31_1, 31, 1);
-//@ props=C01,C05,C20 tier=quick unwind=12
+//@ props=C01,C05,C20 tier=quick unwind=12 witness=completed
 dec!(dec_31_3, 31, 3);
 //@ props=C02 tier=quick unwind=12
 decm!(decm_31_3, 31, 3);
 //@ props=C05,C10,C06,C07 tier=quick unwind=12
 renc!(renc_31_3, 31, 3);
-//@ props=C01,C05,C20 tier=thorough unwind=16
+//@ props=C01,C05,C20 tier=thorough unwind=16 witness=completed
 dec!(dec_31_7, 31, 7);
 //@ props=C02 tier=thorough unwind=16
 decm!(decm_31_7, 31, 7);
 //@ props=C05,C10,C06,C07 tier=thorough unwind=16
 renc!(renc_31_7, 31, 7);
-//@ props=C01,C05,C20 tier=thorough unwind=11
+//@ props=C01,C05,C20 tier=thorough unwind=11 witness=completed
 dec!(dec_32_0, 32, 0);
 //@ props=C02 tier=thorough unwind=11
 decm!(decm_32_0, 32, 0);
-//@ props=C01,C05,C20 tier=quick unwind=11
+//@ props=C01,C05,C20 tier=quick unwind=11 witness=completed
 dec!(dec_32_1, 32, 1);
 //@ props=C02 tier=quick unwind=11
 decm!(decm_32_1, 32, 1);
-//@ props=C01,C05,C20 tier=quick unwind=11
+//@ props=C01,C05,C20 tier=quick unwind=11 witness=completed
 dec!(dec_32_2, 32, 2);
 //@ props=C02 tier=quick unwind=11
 decm!(decm_32_2, 32, 2);
 //@ props=C05,C10,C06,C07 tier=thorough unwind=11
 renc!(renc_32_2, 32, 2);
-//@ props=C01,C05 tier=thorough unwind=12
+//@ props=C01,C05 tier=thorough unwind=12 witness=completed
 dec!(dec_32_3, 32, 3);
 //@ props=C02 tier=thorough unwind=12
 decm!(decm_32_3, 32, 3);
 //@ props=C05,C10,C06,C07 tier=quick unwind=12
 renc!(renc_32_3, 32, 3);
-//@ props=C01,C05,C20 tier=quick unwind=9
+//@ props=C01,C05,C20 tier=quick unwind=9 witness=completed
 dec!(dec_33_0, 33, 0);
 //@ props=C02 tier=quick unwind=9
 decm!(decm_33_0, 33, 0);
-//@ props=C01,C05,C20 tier=thorough unwind=10
+//@ props=C01,C05,C20 tier=thorough unwind=10 witness=completed
 dec!(dec_33_1, 33, 1);
 //@ props=C02 tier=thorough unwind=10
 decm!(decm_33_1, 33, 1);
 //@ props=C05,C10,C06,C07 tier=thorough unwind=10
 renc!(renc_33_1, 33, 1);
-//@ props=C01,C05,C20 tier=quick unwind=12
+//@ props=C01,C05,C20 tier=quick unwind=12 witness=completed
 dec!(dec_33_3, 33, 3);
 //@ props=C02 tier=quick unwind=12
 decm!(decm_33_3, 33, 3);
 //@ props=C05,C10,C06,C07 tier=quick unwind=12
 renc!(renc_33_3, 33, 3);
-//@ props=C01,C05,C20 tier=thorough unwind=16
+//@ props=C01,C05,C20 tier=thorough unwind=16 witness=completed
 dec!(dec_33_7, 33, 7);
 //@ props=C02 tier=thorough unwind=16
 decm!(decm_33_7, 33, 7);
 //@ props=C05,C10,C06,C07 tier=thorough unwind=16
 renc!(renc_33_7, 33, 7);
-//@ props=C01,C05,C20 tier=thorough unwind=35
+//@ props=C01,C05,C20 tier=thorough unwind=35 witness=completed
 dec!(dec_34_0, 34, 0);
 //@ props=C02 tier=thorough unwind=35
 decm!(decm_34_0, 34, 0);
-//@ props=C01,C05,C20 tier=quick unwind=35
+//@ props=C01,C05,C20 tier=quick unwind=35 witness=completed
 dec!(dec_34_25, 34, 25);
 //@ props=C02 tier=quick unwind=35
 decm!(decm_34_25, 34, 25);
-//@ props=C01,C05,C20 tier=quick unwind=35
+//@ props=C01,C05,C20 tier=quick unwind=35 witness=completed
 dec!(dec_34_26, 34, 26);
 //@ props=C02 tier=quick unwind=35
 decm!(decm_34_26, 34, 26);
 //@ props=C05,C10,C06,C07 tier=thorough unwind=35
 renc!(renc_34_26, 34, 26);
-//@ props=C01,C05 tier=thorough unwind=36
+//@ props=C01,C05 tier=thorough unwind=36 witness=completed
 dec!(dec_34_27, 34, 27);
 //@ props=C02 tier=thorough unwind=36
 decm!(decm_34_27, 34, 27);
 //@ props=C05,C10,C06,C07 tier=quick unwind=36
 renc!(renc_34_27, 34, 27);
-//@ props=C01,C05,C20 tier=thorough unwind=19
+//@ props=C01,C05,C20 tier=thorough unwind=19 witness=completed
 dec!(dec_35_0, 35, 0);
 //@ props=C02 tier=thorough unwind=19
 decm!(decm_35_0, 35, 0);
-//@ props=C01,C05,C20 tier=quick unwind=19
+//@ props=C01,C05,C20 tier=quick unwind=19 witness=completed
 dec!(dec_35_9, 35, 9);
 //@ props=C02 tier=quick unwind=19
 decm!(decm_35_9, 35, 9);
-//@ props=C01,C05,C20 tier=quick unwind=19
+//@ props=C01,C05,C20 tier=quick unwind=19 witness=completed
 dec!(dec_35_10, 35, 10);
 //@ props=C02 tier=quick unwind=19
 decm!(decm_35_10, 35, 10);
 //@ props=C05,C10,C06,C07 tier=thorough unwind=19
 renc!(renc_35_10, 35, 10);
-//@ props=C01,C05 tier=thorough unwind=20
+//@ props=C01,C05 tier=thorough unwind=20 witness=completed
 dec!(dec_35_11, 35, 11);
 //@ props=C02 tier=thorough unwind=20
 decm!(decm_35_11, 35, 11);
 //@ props=C05,C10,C06,C07 tier=quick unwind=20
 renc!(renc_35_11, 35, 11);
-//@ props=C01,C05,C20 tier=thorough unwind=13
+//@ props=C01,C05,C20 tier=thorough unwind=13 witness=completed
 dec!(dec_36_0, 36, 0);
 //@ props=C02 tier=thorough unwind=13
 decm!(decm_36_0, 36, 0);
-//@ props=C01,C05,C20 tier=quick unwind=13
+//@ props=C01,C05,C20 tier=quick unwind=13 witness=completed
 dec!(dec_36_3, 36, 3);
 //@ props=C02 tier=quick unwind=13
 decm!(decm_36_3, 36, 3);
-//@ props=C01,C05,C20 tier=quick unwind=13
+//@ props=C01,C05,C20 tier=quick unwind=13 witness=completed
 dec!(dec_36_4, 36, 4);
 //@ props=C02 tier=quick unwind=13
 decm!(decm_36_4, 36, 4);
 //@ props=C05,C10,C06,C07 tier=thorough unwind=13
 renc!(renc_36_4, 36, 4);
-//@ props=C01,C05 tier=thorough unwind=14
+//@ props=C01,C05 tier=thorough unwind=14 witness=completed
 dec!(dec_36_5, 36, 5);
 //@ props=C02 tier=thorough unwind=14
 decm!(decm_36_5, 36, 5);
 //@ props=C05,C10,C06,C07 tier=quick unwind=14
 renc!(renc_36_5, 36, 5);
-//@ props=C01,C05,C20 tier=quick unwind=9
+//@ props=C01,C05,C20 tier=quick unwind=9 witness=completed
 dec!(dec_37_0, 37, 0);
 //@ props=C02 tier=quick unwind=9
 decm!(decm_37_0, 37, 0);
-//@ props=C01,C05,C20 tier=thorough unwind=10
+//@ props=C01,C05,C20 tier=thorough unwind=10 witness=completed
 dec!(dec_37_1, 37, 1);
 //@ props=C02 tier=thorough unwind=10
 decm!(decm_37_1, 37, 1);
 //@ props=C05,C10,C06,C07 tier=thorough unwind=10
 renc!(renc_37_1, 37, 1);
-//@ props=C01,C05,C20 tier=quick unwind=12
+//@ props=C01,C05,C20 tier=quick unwind=12 witness=completed
 dec!(dec_37_3, 37, 3);
 //@ props=C02 tier=quick unwind=12
 decm!(decm_37_3, 37, 3);
 //@ props=C05,C10,C06,C07 tier=quick unwind=12
 renc!(renc_37_3, 37, 3);
-//@ props=C01,C05,C20 tier=thorough unwind=16
+//@ props=C01,C05,C20 tier=thorough unwind=16 witness=completed
 dec!(dec_37_7, 37, 7);
 //@ props=C02 tier=thorough unwind=16
 decm!(decm_37_7, 37, 7);
 //@ props=C05,C10,C06,C07 tier=thorough unwind=16
 renc!(renc_37_7, 37, 7);
-//@ props=C01,C05,C20 tier=thorough unwind=13
+//@ props=C01,C05,C20 tier=thorough unwind=13 witness=completed
 dec!(dec_38_0, 38, 0);
 //@ props=C02 tier=thorough unwind=13
 decm!(decm_38_0, 38, 0);
-//@ props=C01,C05,C20 tier=quick unwind=13
+//@ props=C01,C05,C20 tier=quick unwind=13 witness=completed
 dec!(dec_38_3, 38, 3);
 //@ props=C02 tier=quick unwind=13
 decm!(decm_38_3, 38, 3);
-//@ props=C01,C05,C20 tier=quick unwind=13
+//@ props=C01,C05,C20 tier=quick unwind=13 witness=completed
 dec!(dec_38_4, 38, 4);
 //@ props=C02 tier=quick unwind=13
 decm!(decm_38_4, 38, 4);
 //@ props=C05,C10,C06,C07 tier=thorough unwind=13
 renc!(renc_38_4, 38, 4);
-//@ props=C01,C05 tier=thorough unwind=14
+//@ props=C01,C05 tier=thorough unwind=14 witness=completed
 dec!(dec_38_5, 38, 5);
 //@ props=C02 tier=thorough unwind=14
 decm!(decm_38_5, 38, 5);
 //@ props=C05,C10,C06,C07 tier=quick unwind=14
 renc!(renc_38_5, 38, 5);
-//@ props=C01,C05,C20 tier=quick unwind=9
+//@ props=C01,C05,C20 tier=quick unwind=9 witness=completed
 dec!(dec_39_0, 39, 0);
 //@ props=C02 tier=quick unwind=9
 decm!(decm_39_0, 39, 0);
 //@ props=C05,C10,C06,C07 tier=thorough unwind=9
 renc!(renc_39_0, 39, 0);
-//@ props=C01,C05 tier=thorough unwind=10
+//@ props=C01,C05 tier=thorough unwind=10 witness=completed
 dec!(dec_39_1, 39, 1);
 //@ props=C02 tier=thorough unwind=10
 decm!(decm_39_1, 39, 1);
 //@ props=C05,C10,C06,C07 tier=quick unwind=10
 renc!(renc_39_1, 39, 1);
-//@ props=C01,C05,C20 tier=thorough unwind=9
+//@ props=C01,C05,C20 tier=thorough unwind=9 witness=completed
 dec!(dec_40_0, 40, 0);
 //@ props=C02 tier=thorough unwind=9
 decm!(decm_40_0, 40, 0);
-//@ props=C01,C05,C20 tier=thorough unwind=11
+//@ props=C01,C05,C20 tier=thorough unwind=11 witness=completed
 dec!(dec_40_2, 40, 2);
 //@ props=C02 tier=thorough unwind=11
 decm!(decm_40_2, 40, 2);
-//@ props=C01,C05,C20 tier=thorough unwind=9
+//@ props=C01,C05,C20 tier=thorough unwind=9 witness=completed
 dec!(dec_65535_0, 65535, 0);
 //@ props=C02 tier=thorough unwind=9
 decm!(decm_65535_0, 65535, 0);
-//@ props=C01,C05,C20 tier=thorough unwind=11
+//@ props=C01,C05,C20 tier=thorough unwind=11 witness=completed
 dec!(dec_65535_2, 65535, 2);
 //@ props=C02 tier=thorough unwind=11
 decm!(decm_65535_2, 65535, 2);
